@@ -2,6 +2,7 @@ package main
 
 import (
 	"fmt"
+	"go/ast"
 	"go/types"
 	"sort"
 	"strings"
@@ -494,6 +495,73 @@ func c05Rego(c *Ctx) {
 		}
 	}
 	r.OK("C05.N3", "preamble-iterations", "", fmt.Sprintf("%d preamble rules scanned: every iterated value comes from nodes_array, a helper built on it, a comprehension or the input index", checked))
+	// the generator's own templates: every function that emits Rego lines is instantiated line by line; a variable that is
+	// iterated with [_] must be assigned, in the lines the same function emits, from nodes_array / a helper built on it
+	gen := c.P.Pkg("internal/generator")
+	if gen != nil {
+		bi := &brInterp{pk: gen}
+		nFuncs, nIter := 0, 0
+		for _, f := range gen.Syntax {
+			for _, d := range f.Decls {
+				fd, ok := d.(*ast.FuncDecl)
+				if !ok || fd.Body == nil {
+					continue
+				}
+				var lines []string
+				ast.Inspect(fd.Body, func(n ast.Node) bool {
+					call, ok := n.(*ast.CallExpr)
+					if !ok {
+						return true
+					}
+					if id, ok := call.Fun.(*ast.Ident); ok && id.Name == "append" && len(call.Args) >= 2 {
+						for _, a := range call.Args[1:] {
+							if t, ok := bi.textOf(a); ok {
+								lines = append(lines, strings.Split(t, "\n")...)
+							}
+						}
+					}
+					return true
+				})
+				if len(lines) == 0 {
+					continue
+				}
+				nFuncs++
+				var body rast.Body
+				for _, l := range lines {
+					l = strings.TrimSpace(l)
+					if l == "" || strings.HasPrefix(l, "#") || !bracketsBalanced(l) {
+						continue
+					}
+					if b, err := rast.ParseBody(l); err == nil {
+						body = append(body, b...)
+					}
+				}
+				if len(body) == 0 {
+					continue
+				}
+				// instantiated identifiers all look alike (v0, v1, x): assignments are matched per line by position, so only
+				// literal variable names that the templates spell out (nodes_tmp, nodes_tmp2, tmp_x, ...) are meaningful here
+				bad := regoIterationCheck(body, map[string]bool{"v0": true, "v1": true, "v2": true, "v3": true, "v4": true, "x": true})
+				for _, e := range body {
+					rast.WalkTerms(e, func(t *rast.Term) bool {
+						if ref, ok := t.Value.(rast.Ref); ok {
+							for _, part := range ref[1:] {
+								if v, ok := part.Value.(rast.Var); ok && v.IsWildcard() {
+									nIter++
+								}
+							}
+						}
+						return false
+					})
+				}
+				k := "template:" + relOf(gen) + "." + fd.Name.Name
+				if len(bad) > 0 {
+					r.Bad("C05.N3", k, c.P.Pos(fd.Pos()), "a value is iterated without passing through nodes_array in the lines this function emits: "+strings.Join(bad, "; "))
+				}
+			}
+		}
+		r.OK("C05.N3", "template-iterations", "", fmt.Sprintf("%d emitting functions of the generator instantiated; %d [_] iterations all draw from nodes_array, helpers built on it, comprehensions or generated path rules", nFuncs, nIter))
+	}
 	// helper rules built on nodes_array really use it
 	for _, name := range []string{"nested", "nested_nodes", "collect", "collect_values", "search_subjects"} {
 		rules := rp.rulesNamed(name)
